@@ -160,6 +160,17 @@ func malformedJSON(class string) []string {
 		return []string{`["\uD83DA"]`, `["\uD83D\n"]`}
 	case "rawControlCharacter":
 		return []string{"[\"a\x01b\"]", "{\"a\x1f\":1}", "[\"\x00\"]"}
+	case "controlCharacterBetweenTokens":
+		// every control character that is not JSON whitespace (and DEL), at every token boundary
+		var out []string
+		for ch := 0; ch <= 0x7f; ch++ {
+			if ch == 0x09 || ch == 0x0a || ch == 0x0d || (ch >= 0x20 && ch != 0x7f) {
+				continue
+			}
+			x := string(rune(ch))
+			out = append(out, x+`[1]`, `[`+x+`1]`, `[1`+x+`]`, `[1]`+x, `[1`+x+`,2]`, `[1,`+x+`2]`, `{`+x+`"a":1}`, `{"a"`+x+`:1}`, `{"a":`+x+`1}`, `{"a":1`+x+`}`, `[`+x+`]`, `{`+x+`}`)
+		}
+		return out
 	case "rawNewline":
 		return []string{"[\"a\nb\"]", "[\"a\tb\"]"}
 	case "trailingContent":
@@ -327,7 +338,7 @@ func C07(c *ev.Ctx) {
 	c.Cov.Evaluations = evals
 	c.Cov.DistinctNontrivial = nt
 	c.Cov.Exhaustive = true
-	c.Cov.Rule = "Jcs.tla: (keys) every set of 2..MaxKeys member names over a 19-name alphabet (empty, prefixes, quote, backslash, slash, U+0000, U+001F, U+007F, U+0080, BMP, U+FB33 vs U+1F600) sorted by UTF-16 code units; each realised in several input orders x name spellings (literal, \\uXXXX upper/lower, short escapes) x whitespace, also nested; (number) ECMAScript layout for every digit string of <= MaxDigits digits x 37 decimal exponents x sign, each with re-spellings (E+, trailing .0, shifted exponent, plain decimal expansion); (malformed) 20 rejection classes. Plus every alphabet string as a value in every spelling, the RFC 8785 Appendix B vectors with re-spellings, fixed-point and parse-equality on every accepted input, value path vs bytes path. NOT covered: digit generation for arbitrary doubles (see DESIGN 9)."
+	c.Cov.Rule = "Jcs.tla: (keys) every set of 2..MaxKeys member names over a 19-name alphabet (empty, prefixes, quote, backslash, slash, U+0000, U+001F, U+007F, U+0080, BMP, U+FB33 vs U+1F600) sorted by UTF-16 code units; each realised in several input orders x name spellings (literal, \\uXXXX upper/lower, short escapes) x whitespace, also nested; (number) ECMAScript layout for every digit string of <= MaxDigits digits x 37 decimal exponents x sign, each with re-spellings (E+, trailing .0, shifted exponent, plain decimal expansion); (malformed) 21 rejection classes (one of them: each of the 30 non-whitespace control characters at each of 12 token boundaries). Plus every alphabet string as a value in every spelling, the RFC 8785 Appendix B vectors with re-spellings, fixed-point and parse-equality on every accepted input, value path vs bytes path. NOT covered: digit generation for arbitrary doubles (see DESIGN 9)."
 	c.Assume = append(c.Assume, "shortest round-trip digit generation of IEEE-754 doubles is arithmetic and outside the specification; it is exercised only through the Appendix B vectors and <= 3-digit values")
 	c.Finish("model_checking")
 }
